@@ -535,7 +535,7 @@ def expand(template_path, repo, twin_suffix=None):
                         clines.append('    ensures false, // vacuity twin')
                 c_start = len(out) + 1
                 for cl in clines:
-                    lm = re.search(r'//\s*\[([A-Z0-9_., -]+)\]\s*(.*)$', cl)
+                    lm = re.search(r'//\s*\[([A-Z0-9_., ?-]+)\]\s*(.*)$', cl)
                     if lm:
                         meta['labels'].append(dict(line=len(out) + 1, props=[p.strip() for p in re.split(r'[ ,]+', lm.group(1)) if p.strip()], text=lm.group(2).strip(), fn=vname))
                     out.append(cl)
@@ -545,7 +545,7 @@ def expand(template_path, repo, twin_suffix=None):
         elif s.startswith('//@'):
             raise ExtractError('unknown directive: ' + s)
         else:
-            lm = re.search(r'//\s*\[([A-Z0-9_., -]+)\]\s*(.*)$', ln)
+            lm = re.search(r'//\s*\[([A-Z0-9_., ?-]+)\]\s*(.*)$', ln)
             if lm and re.match(r'^[A-Z]\d\d', lm.group(1).strip()):
                 meta['labels'].append(dict(line=len(out) + 1, props=[p.strip() for p in re.split(r'[ ,]+', lm.group(1)) if p.strip()], text=lm.group(2).strip(), fn=None))
             out.append(ln)
